@@ -46,6 +46,45 @@ type c11World struct {
 	ticks        int
 	odd          bool     // a round saw a non-dial failure / all-failed / signed-but-malformed reply
 	lastAnswered [32]byte // the server whose reply the last successful round accepted
+	// servers that exist and hold a GCA authorization but are NOT in the client's
+	// files: the client can only learn of them (as banned or as usable) from replies
+	strangers []*world.FakeServer
+	told      map[[32]byte]bool // keys named as banned by a GCA-signed entry of a reply the client accepted
+}
+
+// allFakes lists every fake server that a round may see a connection on.
+func (w *c11World) allFakes() []*world.FakeServer {
+	return append(append([]*world.FakeServer{}, w.fakes...), w.strangers...)
+}
+
+// addStrangers starts 1-2 servers the client has never heard of.
+func (w *c11World) addStrangers(t *rapid.T) {
+	n := rapid.IntRange(0, 2).Draw(t, "strangers")
+	for i := 0; i < n; i++ {
+		f := world.NewFakeServer(keyFor(fmt.Sprintf("c11-stranger-%d", i)))
+		f.SetBehaviour(func(attempt int, req []byte) world.Action { return w.nextAction(f) })
+		w.strangers = append(w.strangers, f)
+		w.fakeOf[f.Key.Pub] = f
+		w.hist = append(w.hist, fmt.Sprintf("stranger %d: fake, not in the client's files", i))
+	}
+}
+
+// strangerEntries draws GCA-signed entries about the strangers: bans (by full
+// entry or by key only) when ban is set, announcements of usable servers otherwise.
+func (w *c11World) strangerEntries(t *rapid.T, ban bool) []ref.AuthServer {
+	var out []ref.AuthServer
+	for _, s := range w.strangers {
+		if !rapid.Bool().Draw(t, "nameStranger") {
+			continue
+		}
+		e := ref.AuthServer{PublicKey: s.Key.Pub, Banned: ban, Location: "127.0.0.1", TcpPort: s.Port, UdpPort: w.sink.Port}
+		if ban && rapid.Bool().Draw(t, "banByKeyOnly") {
+			e = ref.AuthServer{PublicKey: s.Key.Pub, Banned: true}
+		}
+		e.Sig = ref.Sign(w.gca, e.SigningBytes())
+		out = append(out, e)
+	}
+	return out
 }
 
 func (w *c11World) fail(format string, a ...interface{}) {
@@ -154,7 +193,12 @@ func (w *c11World) action(f *world.FakeServer, outcome string, t *rapid.T) world
 				entries = append(entries, e)
 			}
 		}
+		// ... or a server the client has never heard of
+		entries = append(entries, w.strangerEntries(t, true)...)
 		return world.Action{Kind: "raw", Raw: world.Frame(w.validReply(f, entries).Encode())}
+	case "valid-announce":
+		// a valid reply that lists (GCA-signed, not banned) servers the client may not know yet
+		return world.Action{Kind: "raw", Raw: world.Frame(w.validReply(f, w.strangerEntries(t, false)).Encode())}
 	case "valid-ban-self":
 		// a valid reply in which the contacted server itself is listed as banned
 		// (an honest server that the GCA has banned says so), optionally with others
@@ -196,13 +240,14 @@ func (w *c11World) action(f *world.FakeServer, outcome string, t *rapid.T) world
 			e.Sig = ref.Sign(w.gca, e.SigningBytes())
 			entries = append(entries, e)
 		}
+		entries = append(entries, w.strangerEntries(t, false)...)
 		return world.Action{Kind: "raw", Raw: world.Frame(w.validReply(f, entries).Encode())}
 	default: // "valid"
 		return world.Action{Kind: "raw", Raw: world.Frame(w.validReply(f, nil).Encode())}
 	}
 }
 
-var c11Outcomes = []string{"close", "reset", "short-prefix", "short-body", "refusal-byte", "stall-then-close", "len-lt-72", "signed-72-711", "signed-large", "random-bytes", "bad-signature", "stale-timestamp", "wrong-device", "bad-entry", "truncated-entry", "valid-ban-other", "valid-ban-self", "valid-self-migration", "valid-unban-attempt", "valid", "valid"}
+var c11Outcomes = []string{"close", "reset", "short-prefix", "short-body", "refusal-byte", "stall-then-close", "len-lt-72", "signed-72-711", "signed-large", "random-bytes", "bad-signature", "stale-timestamp", "wrong-device", "bad-entry", "truncated-entry", "valid-ban-other", "valid-ban-self", "valid-self-migration", "valid-unban-attempt", "valid-announce", "valid", "valid"}
 
 func c11Failing(o string) bool {
 	return !strings.HasPrefix(o, "valid")
@@ -210,7 +255,7 @@ func c11Failing(o string) bool {
 
 func newC11World(t *rapid.T, oldSync bool) *c11World {
 	client.VerifSetStepping(true)
-	w := &c11World{t: t, dev: keyFor("c11-dev"), gca: keyFor("gca"), sink: world.NewUDPSink(), fakeOf: map[[32]byte]*world.FakeServer{}, queue: map[[32]byte][]string{}}
+	w := &c11World{t: t, dev: keyFor("c11-dev"), gca: keyFor("gca"), sink: world.NewUDPSink(), fakeOf: map[[32]byte]*world.FakeServer{}, queue: map[[32]byte][]string{}, told: map[[32]byte]bool{}}
 	n := rapid.IntRange(1, 5).Draw(t, "servers")
 	servers := map[[32]byte]ref.ClientServer{}
 	for i := 0; i < n; i++ {
@@ -282,7 +327,7 @@ func (w *c11World) cleanup() {
 		}
 	}
 	world.StopAllLeakedClients()
-	for _, f := range w.fakes {
+	for _, f := range w.allFakes() {
 		f.Close()
 		c11Mu.Lock()
 		delete(c11Prep, f)
@@ -328,7 +373,7 @@ func (w *c11World) round(t *rapid.T) {
 	dialsBefore := map[*world.FakeServer]int{}
 	var plan []string
 	prepared := map[*world.FakeServer]*c11Prepared{}
-	for _, f := range w.fakes {
+	for _, f := range w.allFakes() {
 		dialsBefore[f] = f.Dials()
 		o := rapid.SampledFrom(c11Outcomes).Draw(t, "outcome")
 		prepared[f] = &c11Prepared{acts: []world.Action{w.action(f, o, t)}}
@@ -362,13 +407,17 @@ func (w *c11World) round(t *rapid.T) {
 	// selection: only servers not known as banned before the round, each at most once
 	nonDial := false
 	succeeded := ""
-	for _, f := range w.fakes {
+	var toldNow [][32]byte
+	for _, f := range w.allFakes() {
 		d := f.Dials() - dialsBefore[f]
 		if d > 1 {
 			w.fail("server %x.. was dialled %d times in one round (round started %s; accept log %v)", f.Key.Pub[:3], d, roundStart.Format("15:04:05.000000"), f.AcceptLog())
 		}
 		if d > 0 && bannedBefore[f.Key.Pub] {
 			w.fail("server %x.. was dialled although the client knew it as banned", f.Key.Pub[:3])
+		}
+		if d > 0 && w.told[f.Key.Pub] {
+			w.fail("server %x.. was dialled although an earlier accepted reply carried the GCA's ban of it", f.Key.Pub[:3])
 		}
 		if d > 0 {
 			o := w.queue[f.Key.Pub][0]
@@ -377,8 +426,15 @@ func (w *c11World) round(t *rapid.T) {
 			// valid reply out of "arbitrary" content)
 			acceptable := false
 			if raw := prepared[f].acts[0]; raw.Kind == "raw" && len(raw.Raw) >= 2 && int(binary.LittleEndian.Uint16(raw.Raw)) == len(raw.Raw)-2 {
-				_, why := ref.AcceptSyncReply(raw.Raw[2:], f.Key.Pub, w.dev.Pub, w.gca.Pub, time.Now().Unix(), ref.Verify)
+				r, why := ref.AcceptSyncReply(raw.Raw[2:], f.Key.Pub, w.dev.Pub, w.gca.Pub, time.Now().Unix(), ref.Verify)
 				acceptable = why == ""
+				if acceptable && r.NewGCA == ([32]byte{}) {
+					for _, e := range r.Servers {
+						if e.Banned {
+							toldNow = append(toldNow, e.PublicKey)
+						}
+					}
+				}
 			}
 			if !acceptable {
 				nonDial = true
@@ -404,7 +460,18 @@ func (w *c11World) round(t *rapid.T) {
 			w.fail("server %x.. was known as banned and is not any more (after a round with %s)", k[:3], strings.Join(plan, " "))
 		}
 	}
+	for _, k := range toldNow {
+		w.told[k] = true
+	}
 	fb, n := w.fileBanned()
+	for k := range w.told {
+		if !bannedAfter[k] {
+			w.fail("an accepted reply carried the GCA's ban of server %x.., and the client does not know it as banned (after a round with %s)", k[:3], strings.Join(plan, " "))
+		}
+		if !fb[k] {
+			w.fail("the ban of server %x.. is not in gcaServers.dat", k[:3])
+		}
+	}
 	if n != len(after.Servers) {
 		w.fail("gcaServers.dat lists %d servers, memory %d", n, len(after.Servers))
 	}
@@ -513,6 +580,11 @@ func (w *c11World) restart() {
 			w.fail("server %x.. was known as banned before the restart and is not after it", k[:3])
 		}
 	}
+	for k := range w.told {
+		if !after[k] {
+			w.fail("the GCA's ban of server %x.. (carried by an accepted reply) is not known after the restart", k[:3])
+		}
+	}
 	var keys []string
 	nonBanned := 0
 	for k, v := range st.Servers {
@@ -532,10 +604,11 @@ func (w *c11World) restart() {
 }
 
 func TestC11Rounds(t *testing.T) {
-	ev.Rule("C11: a client with 1-5 configured servers (dead = dial refused, or fake servers with their own keys; some initially banned) runs generated sync rounds; per connection a drawn outcome: close, reset, short length prefix, short body, refusal byte, length<72, lengths 72..711 and up to 65535 with a VALID signature and fresh timestamp by that server over arbitrary content, random bytes, wrong signer, stale/future timestamp, another device's key, entry not signed by the GCA, truncated entry, valid replies that ban other servers (GCA-signed) or try to un-ban; between rounds new readings + granted ticks and restarts; oracle: no panic, client mutex free after every round, the next tick emits the new reading, no server dialled twice in a round or while known as banned, banned knowledge only grows in memory and in gcaServers.dat and survives restart, primary not banned after restart; non-trivial = history with a non-dial failure, an all-failed round or a signed-but-malformed reply; distinct by history")
+	ev.Rule("C11: a client with 1-5 configured servers (dead = dial refused, or fake servers with their own keys; some initially banned) runs generated sync rounds; per connection a drawn outcome: close, reset, short length prefix, short body, refusal byte, length<72, lengths 72..711 and up to 65535 with a VALID signature and fresh timestamp by that server over arbitrary content, random bytes, wrong signer, stale/future timestamp, another device's key, entry not signed by the GCA, truncated entry, valid replies that ban other servers (GCA-signed) or try to un-ban, and 0-2 authorized servers that are NOT in the client's files, which replies ban (before or after the client hears of them) or announce as usable; between rounds new readings + granted ticks and restarts; oracle: no panic, client mutex free after every round, the next tick emits the new reading, no server dialled twice in a round or while known as banned, banned knowledge only grows in memory and in gcaServers.dat and survives restart, every ban carried by an accepted reply is known afterwards (also for a server the client had not heard of) and such a server is never dialled, primary not banned after restart; non-trivial = history with a non-dial failure, an all-failed round or a signed-but-malformed reply; distinct by history")
 	rapid.Check(t, func(t *rapid.T) {
 		w := newC11World(t, false)
 		defer w.cleanup()
+		w.addStrangers(t)
 		t.Repeat(map[string]func(*rapid.T){
 			"round":  w.round,
 			"round2": w.round,
